@@ -144,10 +144,10 @@ func (r *bufRun) state(feeder string, extra string) string {
 	if strings.HasPrefix(feeder, "timeout") {
 		extra += " FEEDER-" + feeder
 	}
-	return fmt.Sprintf("p=%d it=%d ip=%d co=%d lo=%d dr=%d io=%d gc=%d gb=%d q=%d out=%d hand=%d files=%s%s",
+	return fmt.Sprintf("p=%d it=%d ip=%d co=%d lo=%d dr=%d io=%d gc=%d gb=%d q=%d qt=%d out=%d hand=%d files=%s%s",
 		get("pending_chunks"), get(`input_chunks_total{state="transient"`), get(`input_chunks_total{state="persistent"`),
 		get("consumed_chunks_total"), get("leftover_chunks_total"), get("dropped_chunks_total"), get("io_errors_total"),
-		get("persistent_chunks{"), get("persistent_chunk_bytes"), get("queued_chunks"), len(r.args.InputChannel), hand, fl, extra)
+		get("persistent_chunks{"), get("persistent_chunk_bytes"), get("queued_chunks"), get(`queued_chunks{state="transient"`), len(r.args.InputChannel), hand, fl, extra)
 }
 
 func (b *bufferComp) Impl(c Case) (out []string) {
@@ -395,6 +395,8 @@ func (b *bufferComp) Oracle(c Case, impl []string) string {
 	var lastFiles, prevFiles map[int]string
 	heldByConsumer := map[int]bool{}
 	tampered := map[int]bool{}
+	destroyedSeen := false
+	racyStart := false
 	concurrentSave := false // the property allows the size limit to be exceeded by the chunks being saved concurrently at shutdown
 	parse := func(line string) (map[string]string, map[int]string) {
 		kv := map[string]string{}
@@ -446,10 +448,15 @@ func (b *bufferComp) Oracle(c Case, impl []string) string {
 			return "[key=buffer-stray-file] unexpected file in the queue directory: " + files[-1]
 		}
 		lastFiles = files
+		if o.Name == "buf destroy" || o.Name == "buf destroystalled" || o.Name == "buf cdestroy" {
+			destroyedSeen = true
+		}
 		switch o.Name {
 		case "buf new", "buf newacc":
 			memCap, maxBytes = int(o.Ints[0]), o.Ints[2]
 			concurrentSave = false
+			destroyedSeen = false
+			racyStart = strings.HasPrefix(c.Ops[i].Name, "bufr ")
 			heldByConsumer = map[int]bool{}
 			order = order[:0]
 			takenOrder = takenOrder[:0]
@@ -527,6 +534,12 @@ func (b *bufferComp) Oracle(c Case, impl []string) string {
 			if gi("p") != gi("it")+gi("ip")-gi("co")-gi("lo")-gi("dr") {
 				return fmt.Sprintf("[key=metric-pending] pending %d != input %d+%d - consumed %d - leftover %d - dropped %d", gi("p"), gi("it"), gi("ip"), gi("co"), gi("lo"), gi("dr"))
 			}
+		}
+		// only a fixed number of chunks stay in memory: at a quiescent point every queued chunk has been unloaded (the loaded
+		// ones are the output window and at most one in the feeder's hand) — before shutdown, whose gauges are not maintained
+		// (not after a racy start: a chunk accepted while the feeder was still loading recovered chunks stays loaded behind them)
+		if n, _ := strconv.Atoi(kv["qt"]); n > 0 && !destroyedSeen && !racyStart && o.Name != "buf new" && o.Name != "buf newacc" {
+			return fmt.Sprintf("[key=buffer-memory] %d loaded chunk(s) sit in the queue at a quiescent point (window %s of %d, hand %s): memory is not bounded by the window", n, kv["out"], memCap, kv["hand"])
 		}
 		if n, _ := strconv.Atoi(kv["out"]); n > memCap {
 			return fmt.Sprintf("[key=buffer-window] %d chunks in the output window, cap %d", n, memCap)
